@@ -1,5 +1,5 @@
 ---- MODULE MCSim ----
-(* simulation: 3 paths x 2 names x 8 ids, 12 calls *)
+(* simulation: 2 handle slots x 3 paths x 2 names x 8 ids, 12 calls *)
 EXTENDS Checkpoint
 MCPaths == <<"p1", "p2", "p3">>
 MCNames == <<"n1", "n2">>
